@@ -233,7 +233,15 @@ CARGO_ENV = {"CARGO_NET_OFFLINE": "true", "CARGO_TARGET_DIR": TARGET,
              "RUSTFLAGS": "--cfg cicada_verif"}
 
 
+def harness_manifest():
+    t = open(os.path.join(VERIF, "harness", "Cargo.toml.in")).read().replace("@REPO@", REPO)
+    p = os.path.join(VERIF, "harness", "Cargo.toml")
+    if not os.path.exists(p) or open(p).read() != t:
+        open(p, "w").write(t)
+
+
 def cargo_build_harness(bins, release=False):
+    harness_manifest()
     cmd = ["cargo", "build", "--offline"] + (["--release"] if release else [])
     for b in bins:
         cmd += ["--bin", b]
